@@ -76,6 +76,12 @@ func (n *Net) Send(ctx context.Context, b []byte) ([]byte, error) {
 	if n.Closed {
 		return nil, ErrClosed
 	}
+	// an expired context makes the real transport fail on the write deadline
+	// before anything is sent; a cancelled one is treated the same way here,
+	// which is how the harness models expiry without a clock
+	if err := ctx.Err(); err != nil {
+		return nil, err
+	}
 	n.Sends++
 	cp := append([]byte(nil), b...)
 	n.Sent = append(n.Sent, cp)
